@@ -240,9 +240,18 @@ def observe(s):
     r = s.range()
     probe = d[0] + ((d[1] - d[0]) * 37 // 100) // MS * MS
     y0, y1 = s(d[0]), s(d[1])
+    # the inverse: the range end points come back as the domain end points, to within a millisecond (both directions of the map
+    # belong to the scale's CURRENT domain and range, whatever was asked of it before)
+    v0 = v1 = 1
+    if r[0] != r[1] and d[0] != d[1]:
+        try:
+            v0 = 1 if abs(s.invert(r[0]) - d[0]) <= MS else 0
+            v1 = 1 if abs(s.invert(r[1]) - d[1]) <= MS else 0
+        except Exception:
+            v0 = v1 = 0
     return {"d": [x.isoformat() for x in d], "r": [repr(float(x)) for x in r], "c": 1 if s.clamp() else 0,
             "y0": repr(float(y0)), "y1": repr(float(y1)), "yp": repr(float(s(probe))),
-            "e0": 1 if y0 == r[0] else 0, "e1": 1 if y1 == r[1] else 0}
+            "e0": 1 if y0 == r[0] else 0, "e1": 1 if y1 == r[1] else 0, "v0": v0, "v1": v1}
 
 
 def play_hist(h, doms, rngs):
